@@ -7,5 +7,7 @@ CONSTANTS
   MaxVals = 2
   HookDepth = 2
   OwnBytes = TRUE
-INVARIANTS StoredForm ReadBack OnlyWhenEnabled
+  Nodes = {}
+  ConnConfig = "live"
+INVARIANTS StoredForm ReadBack OnlyWhenEnabled OffMeansOff
 CHECK_DEADLOCK FALSE
